@@ -8,6 +8,7 @@ import os
 
 from lib import core
 from lib.runner import Case, PropertyCheck
+from props import c20_json
 
 
 def lit(n):
@@ -40,9 +41,10 @@ class C20(PropertyCheck):
     imports = ('From Coq Require Import List ZArith String.\nFrom Xr Require Import Base.Res Base.Show Conv.Dates Conv.Fractions Conv.ConvInst.\n'
                'Import ListNotations.\nOpen Scope Z_scope.\n')
     batch = 40
-    technique = 'Coq proofs: Julian-day/date and Unix/datetime round trips for ALL integers (400-year periodicity + exhaustive period sweep), fraction canonicity and exact arithmetic; correspondence incl. JSON against an independent parser'
+    technique = 'Coq proofs: Julian-day/date and Unix/datetime round trips for ALL integers (400-year periodicity + exhaustive period sweep), fraction canonicity and exact arithmetic, JSON serialise/read round trip for every document below the reader depth limit (strings with all escapes, four number layouts, arrays, objects); correspondence incl. JSON against the Coq model and an independent parser'
     trusted = ['float arithmetic of datetime() on integral seconds below 2^53 is exact (modelled over Z)', "Python's json module is the independent JSON parser",
-               'JSON serialise/deserialise is NOT modelled in Coq: that part of the property is decided by the correspondence only (partial)']
+               'JSON: float -> shortest decimal digits (Rust {:?} / Grisu) is NOT modelled; the correspondence supplies the decimal of each float (Python repr) and the model covers the layout of the text and the reader',
+               'serde_json is represented by the RFC 8259 reader of coq/Conv/Json.v (recursion limit 128, no lone surrogates, no raw control characters); number texts are kept to <= 15 significant digits so that each denotes one double']
     assumptions = ['include.rs date/fraction functions as transcribed in coq/Conv (checked by the correspondence)']
     rule = ('Julian days in +-3,000,000 (+ far outside), valid dates incl. leap days and negative years, Unix times in +-1e11 incl. negative and fractional, '
             'fraction operands up to 2^70 incl. negative and zero, ints x bases 2..36, scalar values at UTF-8 boundaries and surrogates, JSON documents of nesting <= 5; '
@@ -236,7 +238,10 @@ class C20(PropertyCheck):
             distinct += 1
             if len(samples) < 4:
                 samples.append({'document': text[:120], 'serialised': out[2:122]})
-        ctx['coverage'] = {'evaluations': len(jobs), 'distinct_nontrivial': distinct, 'samples': samples, 'json_documents': len(jobs)}
+        # ---- JSON against the proved Coq model (serialiser text, reader verdicts and documents, depth limit)
+        mv, m_evals, m_distinct, m_cov = c20_json.run(ctx, rng, tier)
+        violations.extend(mv)
+        ctx['coverage'] = dict({'evaluations': len(jobs) + m_evals, 'distinct_nontrivial': distinct + m_distinct, 'samples': samples, 'json_documents': len(jobs)}, **m_cov)
         return violations
 
 
